@@ -461,11 +461,11 @@ func c10AuthSites(c *Ctx) {
 		"lfsapi.setRequestAuthWithCreds": "credential-helper result for credsURL",
 	}
 	allowedVar := map[string]string{
-		"(*lfshttp.Client).NewRequest":       "headers of the ssh authenticate answer for this endpoint",
-		"(*tq.adapterBase).newHTTPRequest":   "the action's own headers onto the action's own href",
-		"tq.verifyUpload":                    "the verify action's own headers onto its own href",
-		"lfshttp.newRequestForRetry":         "redirect copy (guarded by R1)",
-		"(*tq.tusUploadAdapter).DoTransfer":  "tus protocol headers",
+		"(*lfshttp.Client).NewRequest":        "headers of the ssh authenticate answer for this endpoint",
+		"(*tq.adapterBase).newHTTPRequest":    "the action's own headers onto the action's own href",
+		"tq.verifyUpload":                     "the verify action's own headers onto its own href",
+		"lfshttp.newRequestForRetry":          "redirect copy (guarded by R1)",
+		"(*tq.tusUploadAdapter).DoTransfer":   "tus protocol headers",
 		"(*tq.basicUploadAdapter).DoTransfer": "upload headers",
 	}
 	nConst := 0
